@@ -157,9 +157,16 @@ func applyRemovals(actions []pruneAction, dryRun bool, out io.Writer) error {
 	return errors.Join(errs...)
 }
 
-func indexRepositories(repositories []repositorySpec, opts gitindex.Options, out io.Writer) error {
+// indexRepositories indexes the repositories that are not up to date. The
+// names in replaced belong to shards that are removed before indexing; in a
+// dry run those shards are still on disk and say nothing about what -f does.
+func indexRepositories(repositories []repositorySpec, replaced map[string]bool, opts gitindex.Options, out io.Writer) error {
 	var errs []error
 	for _, repo := range repositories {
+		if opts.DryRun && replaced[repo.Name] {
+			fmt.Fprintf(out, "Would index %q from %s\n", repo.Name, repo.Source)
+			continue
+		}
 		repoOpts := opts
 		repoOpts.RepoDir = repo.Source
 		repoOpts.BuildOptions.RepositoryDescription = zoekt.Repository{Name: repo.Name}
